@@ -87,6 +87,8 @@ define_ops! {
     // ---- operator shapes (sh = 0..5: v op v, v op &v, &v op v, &v op &v, op= v, op= &v)
     op_add = |a: U, b: U, sh: N| pair(|| shapes!(sh, a, b, +, +=), || Uint::wrapping_add(a, b));
     op_sub = |a: U, b: U, sh: N| pair(|| shapes!(sh, a, b, -, -=), || Uint::wrapping_sub(a, b));
+    // both operands the SAME object (an implementation may dispatch on pointer identity, e.g. to a squaring routine)
+    op_alias = |a: U, k: N| pair(|| match k { 0 => &a + &a, 1 => &a - &a, 2 => &a * &a, 3 => &a / &a, 4 => &a % &a, 5 => &a & &a, 6 => &a | &a, _ => &a ^ &a }, || match k { 0 => Uint::wrapping_add(a, a), 1 => Uint::wrapping_sub(a, a), 2 => Uint::wrapping_mul(a, a), 3 => Uint::wrapping_div(a, a), 4 => Uint::wrapping_rem(a, a), 5 => a, 6 => a, _ => Uint::<B, L>::ZERO });
     op_mul = |a: U, b: U, sh: N| pair(|| shapes!(sh, a, b, *, *=), || Uint::wrapping_mul(a, b));
     op_div = |a: U, b: U, sh: N| pair(|| shapes!(sh, a, b, /, /=), || Uint::wrapping_div(a, b));
     op_rem = |a: U, b: U, sh: N| pair(|| shapes!(sh, a, b, %, %=), || Uint::wrapping_rem(a, b));
@@ -373,6 +375,9 @@ fn c20(r: &Runner) {
             l.states(1);
             for &op in UN {
                 exec(l, bits, op, &[a.clone()]);
+            }
+            for k in 0..8 {
+                exec(l, bits, Op::op_alias, &[a.clone(), V::n(k)]);
             }
             for sh in 0..2 {
                 exec(l, bits, Op::op_neg, &[a.clone(), V::n(sh)]);
